@@ -193,6 +193,7 @@ def seq_mut_append(E, st, recv, vals):
 class HandleRequest(Contract):
     name = "Pyro5.server.Daemon.handleRequest#body"
     props = ("C02", "C03", "C07", "C08", "C11", "C12", "C16")
+    local_positions = {"obj": 11, "data": 12}
     raises = {"builtins.Exception": "x_any"}
     trusted = ("user methods / hooks / property accessors are arbitrary user code (may raise any Exception subclass); they may write "
                "current_context.response_annotations (tracked by provenance) but no other Pyro-internal state",
@@ -362,7 +363,7 @@ class HandleRequest(Contract):
     # --- batch loop ----------------------------------------------------------------------------------------------------
     def loop_inv(self, k, E, old, st, a):
         j = st.ghost["idx0"].e
-        data = st.env["data"]
+        data = E.local(st, "data")
         return [("C11: one result per call made so far", z3.Length(data.e) == j),
                 ("C11: one invocation per call made so far", st.ghost["user_calls"].e == j),
                 ("0<=j", j >= 0)]
@@ -376,6 +377,11 @@ class HandleRequest(Contract):
         "'unknown object' refusal, which is only justified when the registry lookup gave None")
 def construct_daemon_error(E, st, args, kw):
     c = getattr(E, "cur_contract", None)
-    if isinstance(c, HandleRequest) and "obj" in st.env and isinstance(st.env["obj"], VOpaque):
-        E.oblige(st, "C16:'unknown object' only when the id designates nothing", st.env["obj"].e == U_NONE, kind="pre")
+    if isinstance(c, HandleRequest):
+        try:
+            objv = E.local(st, "obj")
+        except Exception:      # noqa  (before the lookup happened)
+            objv = None
+        if isinstance(objv, VOpaque):
+            E.oblige(st, "C16:'unknown object' only when the id designates nothing", objv.e == U_NONE, kind="pre")
     return [Res(st, E.new_exc(st, "Pyro5.errors.DaemonError", args))]
